@@ -30,7 +30,7 @@ type failure struct {
 }
 
 // step applies one planned change. strict failures are the ones of the property
-// (they decide the replay verdict); soft ones are reported but do not stop the replay.
+// (they decide the replay verdict). lenient = only compute the effects (finalState).
 func (r *refcat) step(o ochg, lenient bool) (strict, soft []failure) {
 	fail := func(class, f string, a ...any) {
 		strict = append(strict, failure{class: class, msg: fmt.Sprintf(f, a...)})
@@ -78,10 +78,13 @@ func (r *refcat) step(o ochg, lenient bool) (strict, soft []failure) {
 				r.live[[2]int{o.t, tc.f.sym}] = tc.f.ref
 			case '-':
 				if _, ok := r.live[[2]int{o.t, tc.f.sym}]; !ok && !lenient {
-					soft = append(soft, failure{class: "dropfk-not-live", msg: fmt.Sprintf("ALTER TABLE %d drops FK %d which is not live", o.t, tc.f.sym)})
+					fail("dropfk-not-live", "ALTER TABLE %d drops FK %d which is not live", o.t, tc.f.sym)
 				}
 				delete(r.live, [2]int{o.t, tc.f.sym})
 			case '~':
+				if _, ok := r.live[[2]int{o.t, tc.f.sym}]; !ok && !lenient {
+					fail("dropfk-not-live", "ALTER TABLE %d re-points FK %d which is not live", o.t, tc.f.sym)
+				}
 				delete(r.live, [2]int{o.t, tc.f.sym})
 				if !r.tabs[tc.g.ref] {
 					failFK(tc.g, "ALTER TABLE %d re-points FK %d to table %d which does not exist", o.t, tc.g.sym, tc.g.ref)
